@@ -8,19 +8,22 @@ CONSTANTS NLay,         \* number of layers
           MaxDrops,     \* bound on the total number of drop-in files in a tree
           Shapes,       \* set of two-letter strings: main shape, drop-in shape (b both, n group-less, s section)
           Export,
-          ND            \* number of postfix (drop-in) directories per layer: 1, or 2 for CONFIG_DIRS / econf_set_conf_dirs lists
-VARIABLES main, drop, shp, stage, pd
-vars == <<main, drop, shp, stage, pd>>
+          ND,           \* number of postfix (drop-in) directories per layer: 1, or 2 for CONFIG_DIRS / econf_set_conf_dirs lists
+          MaxNull       \* bound on the number of drop-ins of a tree that are symbolic links to /dev/null
+VARIABLES main, drop, shp, stage, pd, dnull
+vars == <<main, drop, shp, stage, pd, dnull>>
 
-Tree == [main |-> main, drop |-> drop, mshape |-> MShape(shp), dshape |-> DShape(shp), pd |-> pd]
+Tree == [main |-> main, drop |-> drop, mshape |-> MShape(shp), dshape |-> DShape(shp), pd |-> pd, dnull |-> dnull]
+NNull == LET RECURSIVE S(_) S(i) == IF i = 0 THEN 0 ELSE Cardinality(dnull[i]) + S(i - 1) IN S(Len(dnull))
 NDrops == LET RECURSIVE S(_) S(i) == IF i = 0 THEN 0 ELSE Cardinality(drop[i]) + S(i - 1) IN S(Len(drop))
 
-Init == main = <<>> /\ drop = <<>> /\ stage = 0 /\ shp \in Shapes /\ pd = <<>>
+Init == main = <<>> /\ drop = <<>> /\ stage = 0 /\ shp \in Shapes /\ pd = <<>> /\ dnull = <<>>
 Grow == /\ stage < NLay /\ stage' = stage + 1
         /\ \E k \in MainKinds, d \in {s \in SUBSET NameSet : Cardinality(s) + NDrops <= MaxDrops} :
              /\ main' = Append(main, k) /\ drop' = Append(drop, d)
              \* each present drop-in sits in one of the ND postfix directories (never the same name in two of them)
              /\ \E a \in [d -> 1..ND] : pd' = Append(pd, [n \in 1..NNames |-> IF n \in d THEN a[n] ELSE 1])
+             /\ \E z \in {s \in SUBSET d : Cardinality(s) + NNull <= MaxNull} : dnull' = Append(dnull, z)
         /\ UNCHANGED shp
 Next == Grow
 Spec == Init /\ [][Next]_vars
@@ -40,6 +43,7 @@ HistoryFolds  == stage = NLay => Folds(Outcome)
 
 FileJ(f) == <<f.l, f.r>>
 CaseOf(o) == [main |-> main, drop |-> [i \in 1..NLay |-> SetToSeq(drop[i])], shp |-> shp, pd |-> pd,
+         dnull |-> [i \in 1..NLay |-> SetToSeq(dnull[i])],
          rc |-> o.rc, exp |-> ObsOf(o.cfg),
          log |-> [j \in 1..Len(o.log) |-> FileJ(o.log[j])],
          hist |-> [j \in 1..Len(o.hist) |-> [f |-> FileJ(o.hist[j]), obs |-> ObsOf(Content(Tree, o.hist[j]))]],
